@@ -420,10 +420,25 @@ func init() {
 		// ---- fmt / errors ----
 		"fmt.Errorf": func(in *Interp, fr *Frame, a []Value) (Value, bool) {
 			// an opaque non-nil error that remembers the errors among its operands (the %w chain)
-			e := &OpaqueErr{Msg: "fmt.Errorf:" + concStrArg(a[0])}
+			format := concStrArg(a[0])
+			e := &OpaqueErr{Msg: "fmt.Errorf:" + format}
 			if len(a) > 1 && a[1].R != nil {
-				for _, arg := range a[1].R.(*SliceV).S {
-					if arg.K == KIface && arg.R != nil {
+				// only the operands of %w verbs are wrapped
+				var verbs []byte
+				for i := 0; i < len(format); i++ {
+					if format[i] != '%' {
+						continue
+					}
+					i++
+					for i < len(format) && strings.IndexByte("+-# 0123456789.", format[i]) >= 0 {
+						i++
+					}
+					if i < len(format) && format[i] != '%' {
+						verbs = append(verbs, format[i])
+					}
+				}
+				for k, arg := range a[1].R.(*SliceV).S {
+					if arg.K == KIface && arg.R != nil && k < len(verbs) && verbs[k] == 'w' {
 						e.Wrapped = append(e.Wrapped, arg)
 					}
 				}
